@@ -185,13 +185,30 @@ def isIsoTimestamp (s : List Char) : Bool :=
        (sep == 'T' || sep == 't' || sep == ' ') && isDigit h1 && isDigit h2 && isDigit m1 && isDigit m2
      | _ => false)
 
+/-- the zone a timestamp text carries after its `HH:MM`: `none` when it is naive, else sign and the four digits of
+    `±HH:MM` (`Z` is `+00:00`; `±HHMM` and `±HH` are the same offsets written shorter) -/
+def zoneOf (s : List Char) : Option (Bool × List Char) :=
+  match (s.drop 16).dropWhile (fun c => !(c == '+' || c == '-' || c == 'Z' || c == 'z')) with
+  | [] => none
+  | c :: rest =>
+    if c == 'Z' || c == 'z' then some (true, ['0', '0', '0', '0'])
+    else
+      let ds := (rest.filter isDigit).take 4
+      some (c == '+' || ds.all (· == '0'), ds ++ List.replicate (4 - ds.length) '0')
+
+/-- the rendered timestamp `p` (`YYYY-MM-DD HH:MM:SS[.ffffff][±HH:MM]`) says the day, the hour and minute and the zone
+    that the text `s` says: a conversion that drops or shifts the zone denotes another instant -/
+def sameInstantText (s p : List Char) : Bool :=
+  s.take 10 == p.take 10 && (s.drop 11).take 5 == (p.drop 11).take 5 && zoneOf s == zoneOf p
+
 /-- is the conversion of string `s` into `v` faithful? (decidable; evaluated on every observed leaf) -/
 def leafSound (s : String) (v : CV) : Bool :=
   match v with
   | .bool b => lower s.toList == (if b then "true".toList else "false".toList)
   | .int i => intTextValue s.toList == some i
   | .typed "date" p => (isIsoDate s.toList && s == p) || (isIsoTimestamp s.toList && (s.toList.take 10 == p.toList))
-  | .typed "datetime" _ => isIsoTimestamp s.toList || isIsoDate s.toList
+  | .typed "datetime" p => (isIsoTimestamp s.toList && sameInstantText s.toList p.toList) ||
+      (isIsoDate s.toList && s.toList == p.toList.take 10 && zoneOf p.toList == none)
   | .typed "ip4" p => (Net.parse4 s.toList).isSome && Net.parse4 s.toList == Net.parse4 p.toList
   | .typed "ip6" p => (Net.parse6 s.toList).isSome && Net.parse6 s.toList == Net.parse6 p.toList
   | .str t => s == t
